@@ -78,7 +78,9 @@ def match_known(prop, failure, known):
             continue
         ok = True
         for key, val in k.get("where", {}).items():
-            fv = failure.get(key)
+            fv = failure
+            for part in key.split("."):
+                fv = fv.get(part) if isinstance(fv, dict) else None
             if isinstance(val, dict) and "in" in val:
                 ok = ok and fv in val["in"]
             elif isinstance(val, dict) and "not" in val:
